@@ -63,6 +63,7 @@ static std::vector<Scenario> scenarios(bool fd_too) {
         v.push_back({"rotations-" + c, comp, (bool)fd, {{'Q', 2, "", false}, {'R', 0, "outB", true}, {'Q', 3, "", false}, {'R', 0, "outC", false}, {'Q', 1, "", false}, {'R', 0, "outD", true}}, ""});
         if (!fd) v.push_back({"onto-existing-" + c, comp, false, {{'Q', 2, "", false}, {'R', 0, "outE", true}, {'Q', 2, "", false}, {'R', 0, "outF", false}}, "outE"});
         if (!fd) v.push_back({"back-to-first-" + c, comp, false, {{'Q', 2, "", false}, {'R', 0, "outB", false}, {'Q', 2, "", false}, {'R', 0, "outA", true}, {'Q', 3, "", false}}, ""});
+        if (!fd) v.push_back({"onto-current-" + c, comp, false, {{'Q', 2, "", false}, {'R', 0, "outA", true}, {'Q', 3, "", false}, {'R', 0, "outA", false}, {'Q', 2, "", false}}, ""});   // rotation onto the very name being written
         v.push_back({"buffered-unwritten-" + c, comp, (bool)fd, {{'Q', 1, "", false}}, ""});
         v.push_back({"nothing-" + c, comp, (bool)fd, {}, ""});
     }
